@@ -177,6 +177,11 @@ def edits(req):
                     else:
                         setattr(o, name, R(val))
                 out.append("s")
+            elif k == "reparse":
+                # the live object is given another object's contents; from here on it must behave like that object
+                f = dict(op[1])
+                o.set_raw_string(build(kind, f).as_raw_string())
+                out.append("s")
             else:
                 fresh = build(kind, f)
                 want_raw = fresh.as_raw_string()
